@@ -169,14 +169,20 @@ func (b *AlertBook) Keys() []string {
 	return ks
 }
 
-// SurelyFiring: the label set has a submission before t (strictly) whose every admissible end is after t.
+// SurelyFiring: under both readings of submissions made at exactly t (already applied / not yet
+// applied) the label set has a submission whose every admissible end is after t.
 func (b *AlertBook) SurelyFiring(key string, t time.Time) bool {
 	h := b.ByKey[key]
 	if h == nil {
 		return false
 	}
-	s := h.At(t, true)
-	return s != nil && s.EndLo().After(t)
+	for _, strict := range []bool{true, false} {
+		s := h.At(t, strict)
+		if s == nil || !s.EndLo().After(t) {
+			return false
+		}
+	}
+	return true
 }
 
 // PossiblyFiring: some admissible reading has the alert firing at t (submissions at exactly t count).
